@@ -87,6 +87,8 @@ snippet("ragged-col", "def f(d, l):\n    return RaggedArray(d, l)[:, -1] * 10 + 
 snippet("ragged-row", "def f(d, l, i):\n    return RaggedArray(d, l)[i]", [(np.arange(9), ints(4, 0, 2, 3), i) for i in (0, 1, 3, -1)])
 snippet("ragged-row-gather", "def f(d, l, idx):\n    return RaggedArray(d, l)[idx]", [(np.arange(9), ints(4, 0, 2, 3), ints(3, 0, 0, -1, 1)), (np.arange(9), ints(4, 0, 2, 3), ints(2,))])
 snippet("ragged-row-gather-colslice", "def f(d, l, idx):\n    return RaggedArray(d, l)[idx, 1:]", [(np.arange(9), ints(4, 0, 2, 3), ints(3, 0, 1, -1)), (np.arange(9), ints(4, 1, 2, 2), ints(0, 2))])
+snippet("ragged-where-column", "def f(d, e, l, m):\n    return np.where(m[:, np.newaxis], RaggedArray(d, l), RaggedArray(e, l))",
+        [(np.arange(9), np.arange(9) + 20, ints(4, 2, 3), np.array([True, False, True])), (np.arange(7), np.arange(7) * 2, ints(3, 4), np.array([False, False]))])
 snippet("ragged-slice-fn", "def f(d, s, e):\n    return ragged_slice(d, s, e)", [(np.arange(10), ints(1, 5, 9, 0), ints(3, 5, 12, -2)), (np.arange(6), ints(2, 4), ints(1, 6))])
 snippet("ragged-view-index", "def f(d, l, s, m):\n    return RaggedArray(d, l)[RaggedView(s, m)]", [(np.arange(10), ints(4, 2, 4), ints(0, 4, 6), ints(3, 2, 0))])
 snippet("shift-by-array", "def f(a):\n    return ((a[:, None] >> (4 * np.arange(2, dtype=np.uint8)[::-1])).ravel() & np.uint8(15))", [(np.array([0x12, 0xf0, 0x0f, 0xab], dtype=np.uint8),)])
